@@ -2050,8 +2050,41 @@ def explore_c18(ctx, res, replay_ops=None):
     _explore_peer(ctx, res, replay_ops, "C18")
 
 
+def _sweep_phase(ctx, res, ops=None):
+    """answers that arrive within microseconds of the client's 5 s timer, 400 subscribers at once (harness/cmd/peersweep.go)"""
+    import concurrent.futures
+    if ops is None:
+        ops = ["peer sweep R 400 4996000 5002000", "peer sweep A 400 4996000 5002000"]
+        if ctx.tier == "thorough":
+            ops += ["peer sweep R 400 4998000 5001000", "peer sweep R 400 4990000 5010000", "peer sweep A 400 4998000 5001000",
+                    "peer sweep R 200 4999000 5000500"]
+    with concurrent.futures.ThreadPoolExecutor(2) as ex:
+        impl = list(ex.map(lambda o: core.harness_run(ctx.harness, "peer", [o], timeout=300)[0], ops))
+    model = core.driver_run(ops)
+    for op, im, mo in zip(ops, impl, model):
+        res.evaluations += 1
+        res.traces_validated += 1
+        res.nontrivial.add(op)
+        res.dist["timer-edge-sweep:%s" % op.split(" ")[2]] += 1
+        d = dict(x.split("=", 1) for x in im.split(" ") if "=" in x)
+        if im.split(" ")[0] != "sweep":
+            res.violation("oracle", "C19: the timer-edge sweep did not run (%s)" % im[:100], [op, "# impl: " + im[:300]])
+        elif d.get("cross") != "0":
+            res.violation("oracle", "C19: %s of %s requests made right after a request of the same subscriber had timed out acted upon the answer "
+                          "to that earlier request, which arrived as its timer fired (%s)" % (d.get("cross"), d.get("n"), d.get("first", "")[:300].replace("_", " ")),
+                          [op, "# impl: " + im[:600], "# model: " + mo])
+        elif im != mo:
+            res.violation("oracle", "C19: the timer-edge sweep left requests unanswered", [op, "# impl: " + im[:300], "# model: " + mo])
+    res.extra["timer_edge_sweeps"] = len(ops)
+
+
 def explore_c19(ctx, res, replay_ops=None):
+    if replay_ops and replay_ops[0].split(" ")[1:2] == ["sweep"]:
+        _sweep_phase(ctx, res, replay_ops)
+        return
     _explore_peer(ctx, res, replay_ops, "C19")
+    if replay_ops is None:
+        _sweep_phase(ctx, res)
     if replay_ops is None and not getattr(ctx, "lean_ok", True) and not [v for v in res.violations if v["found_input"]]:
         # the proof obligations broke (source facts changed) and the timed scenarios found nothing: search the
         # window around the timeout for a run in which a later request hangs or takes a foreign answer
